@@ -144,6 +144,29 @@ def pc_hiding(case, lo):
                 if k < int(h) + 2:
                     fails.append("%s polynomial %d (%s): %s blinding polynomial has %d coefficients for hiding bound %s (needs %d)"
                                  % (sch, i, case.meta["shapes"][i], "shifted" if part == "srand" else "unshifted", k, h, int(h) + 2))
+    # IPA: one fresh blinding scalar per blinded group element - the plain and the shifted commitment of a degree-bounded hiding
+    # polynomial each get their own, and no scalar serves two commitments of one call (independent uniform scalars coincide with
+    # negligible probability; a repeat means comm - shifted_comm, or the difference of two commitments, is independent of the RNG)
+    if sch == "ipa":
+        seen = {}
+        for i in range(n):
+            if case.fields["hiding.%d" % i][0] == "none":
+                continue
+            v = lo.get("rand.%d" % i)
+            if v is None:
+                continue
+            toks = list(v[1])
+            if case.fields["bound.%d" % i][0] != "none" and len(toks) < 2:
+                fails.append("ipa polynomial %d (%s): hiding and degree-bounded, but the commitment state has no blinding scalar for the shifted commitment"
+                             % (i, case.meta["shapes"][i]))
+            for k, tkn in enumerate(toks):
+                if tkn in seen:
+                    j, kj = seen[tkn]
+                    fails.append("ipa polynomial %d (%s): the %s commitment is blinded with the same scalar as the %s commitment of polynomial %d "
+                                 "(their difference does not depend on the RNG)"
+                                 % (i, case.meta["shapes"][i], "shifted" if k else "plain", "shifted" if kj else "plain", j))
+                else:
+                    seen[tkn] = (i, k)
     # PST13: the blinding polynomial (from the commitment state) has at least h+2 coefficients, univariate monomials only,
     # none when the polynomial is not hiding
     if sch == "pst13":
